@@ -131,7 +131,7 @@ func body(r *ev.Run) {
 	r.Require("forbidden_header_delivered", 3)
 	r.Require("checkpoint_mismatch_delivered", 3)
 	r.Require("checkpoint_advance_sequences_checked", 3)
-	n := r.Pick(48, 1200)
+	n := r.Pick(96, 1200)
 	for i := 0; i < n; i++ {
 		caseID := fmt.Sprintf("s/%d", i)
 		r.Do(caseID, func() {
